@@ -452,7 +452,8 @@ func GenFloat(t *rapid.T, cfg Cfg) V {
 	}
 }
 
-var strPool = []string{"", "a", "b", "abc", "foo", "foobar", "héllo", "日本語", "Alice", "bob@example.com", "x y", "0", "null", "a*b", `back\slash`, "🙂"}
+var strPool = []string{"", "a", "b", "abc", "foo", "foobar", "héllo", "日本語", "Alice", "bob@example.com", "x y", "0", "null", "a*b", `back\slash`, "🙂",
+	"the quick brown fox jumps over the lazy dög", "0123456789012345678901234567890123456789éé", "ééééééééééééééééééééééééééééééééé ascii tail after thirty-three runes"}
 
 func GenStr(t *rapid.T) V {
 	if rapid.IntRange(0, 3).Draw(t, "smode") == 0 {
